@@ -1,10 +1,206 @@
-(* C05 property theorems (statements closed by `exact`, each followed by Print Assumptions). *)
+(* C05 property theorems.  Nothing but statements closed by `exact`, each followed by
+   Print Assumptions.
+
+   Vocabulary (Model.v / Proofs.v): zs = y :: exogenous columns, all of length n; fh = requested
+   steps ahead (>= 1, strictly increasing, contiguous or gapped); `swt` = _sliding_window_transform
+   (built from the zero-padded diagonal fill, truncation and split of the source, whose index
+   expressions are regenerated and bridged in Bridge.v); window_at zs wl r = per variable the
+   observations r .. r+wl-1; target_at y wl r h = y[(r+wl-1) + h]; n_windows n wl fh =
+   n - wl - max fh + 1; enc = tabular (variable-major flat row) or time-series (panel) layout;
+   train_X / train_t / train_T = the lag windows 0 .. n_windows-1 and their targets; last_obs = the
+   last wl observations of every variable.  The regressor (M, fit1, fitm, pred1, predm) is
+   universally quantified: any deterministic functions. *)
 From Coq Require Import ZArith List Bool.
 Require Import SkV.Lib.Base SkV.Lib.ZRange SkV.C05.Model SkV.C05.Proofs.
 Import ListNotations.
 Open Scope Z_scope.
 
+(* "every training row consists of window_length consecutive observations" *)
+Theorem C05_swt_rows : forall zs wl fh yt Xt r, wf_zs zs -> 1 <= wl -> wf_fh fh ->
+  swt zs wl (fh_indexer fh) = Ok (yt, Xt) ->
+  0 <= r < n_windows (zlen (hd [] zs)) wl fh ->
+  nth (Z.to_nat r) Xt [] = window_at zs wl r /\
+  forall zv, In zv zs -> zlen (zslice zv r (r + wl)) = wl /\
+                         forall c, 0 <= c < wl -> znth (zslice zv r (r + wl)) c = znth zv (r + c).
+Proof. exact swt_rows. Qed.
+Print Assumptions C05_swt_rows.
+
+(* "its target is the observation exactly h steps after the end of that window" *)
+Theorem C05_swt_targets : forall zs wl fh yt Xt r, wf_zs zs -> 1 <= wl -> wf_fh fh ->
+  swt zs wl (fh_indexer fh) = Ok (yt, Xt) ->
+  0 <= r < n_windows (zlen (hd [] zs)) wl fh ->
+  nth (Z.to_nat r) yt [] = map (fun h => znth (hd [] zs) ((r + wl - 1) + h)) fh.
+Proof. exact swt_targets. Qed.
+Print Assumptions C05_swt_targets.
+
+(* "all full windows of the series are used once": exactly n - wl - max fh + 1 rows, the windows
+   starting at pairwise distinct positions; a start is used iff its window and all of its targets
+   lie inside the series *)
+Theorem C05_swt_all_full_windows_once : forall zs wl fh yt Xt, wf_zs zs -> 1 <= wl -> wf_fh fh ->
+  swt zs wl (fh_indexer fh) = Ok (yt, Xt) ->
+  let n := zlen (hd [] zs) in
+  let starts := zrange 0 (n_windows n wl fh) 1 in
+  Xt = map (window_at zs wl) starts /\
+  zlen Xt = n - wl - zlast fh + 1 /\ zlen yt = n - wl - zlast fh + 1 /\
+  NoDup starts /\
+  forall s, In s starts <-> (0 <= s /\ (s + wl - 1) + zlast fh <= n - 1).
+Proof. exact swt_all_full_windows_once. Qed.
+Print Assumptions C05_swt_all_full_windows_once.
+
+(* "no row contains its own target or any later value": cell (r, v, c) is the observation at time
+   r + c, target j the observation at (r + wl - 1) + fh_j, data-independent positions with
+   r + c < (r + wl - 1) + fh_j <= n - 1 *)
+Theorem C05_swt_no_future : forall zs wl fh yt Xt r c h, wf_zs zs -> 1 <= wl -> wf_fh fh ->
+  swt zs wl (fh_indexer fh) = Ok (yt, Xt) ->
+  0 <= r < n_windows (zlen (hd [] zs)) wl fh -> 0 <= c < wl -> In h fh ->
+  let a := r + c in let b := (r + wl - 1) + h in
+  0 <= a /\ a < b /\ b <= zlen (hd [] zs) - 1 /\
+  (forall v d, (v < length zs)%nat ->
+     znth (nth v (nth (Z.to_nat r) Xt []) d) c = znth (nth v zs d) a) /\
+  (forall j : nat, (j < length fh)%nat -> nth j fh 0 = h ->
+     nth j (nth (Z.to_nat r) yt []) 0 = znth (hd [] zs) b).
+Proof. exact swt_no_future. Qed.
+Print Assumptions C05_swt_no_future.
+
+(* the same on the series whose observations are their own time positions: inside a row every
+   feature is smaller than every target *)
+Theorem C05_swt_no_future_positions : forall n wl fh yt Xt, 1 <= wl -> wf_fh fh -> 0 <= n ->
+  swt [zrange 0 n 1] wl (fh_indexer fh) = Ok (yt, Xt) ->
+  forall r, 0 <= r < n_windows n wl fh ->
+  forall t x w, In t (nth (Z.to_nat r) yt []) -> In w (nth (Z.to_nat r) Xt []) -> In x w -> x < t.
+Proof. exact swt_no_future_positions. Qed.
+Print Assumptions C05_swt_no_future_positions.
+
+(* rejected exactly when no full window fits *)
 Theorem C05_swt_rejects_iff_no_window : forall zs wl fh, wf_zs zs -> 1 <= wl -> wf_fh fh ->
   (swt zs wl (fh_indexer fh) = Err <-> n_windows (zlen (hd [] zs)) wl fh <= 0).
 Proof. exact swt_rejects_iff. Qed.
 Print Assumptions C05_swt_rejects_iff_no_window.
+
+(* direct: one regressor per requested step h, each fitted on the lag windows with the
+   observation h steps after the window as target; every regressor is given the last wl
+   observations; the forecast for step h is the output of the regressor fitted for step h *)
+Theorem C05_direct_data_flow : forall (M : Type) (fit1 : list xrow -> list Z -> M)
+  (pred1 : M -> xrow -> Z) sc zs wl fh, wf_zs zs -> 1 <= wl -> wf_fh fh ->
+  let y := hd [] zs in
+  let nw := n_windows (zlen y) wl fh in
+  let X := train_X sc zs wl nw in
+  let xp := enc sc (last_obs zs wl) in
+  direct_run M fit1 pred1 sc zs wl fh =
+    if nw <=? 0 then Err else
+    Ok (mkRun (map (fun h => Fit1 X (train_t y wl nw h)) fh)
+              (map (fun i => (i, xp)) (zrange 0 (zlen fh) 1))
+              (map (fun h => pred1 (fit1 X (train_t y wl nw h)) xp) fh)).
+Proof. exact direct_flow. Qed.
+Print Assumptions C05_direct_data_flow.
+
+(* multioutput: one regressor fitted on the lag windows with the vector of all requested targets;
+   it is given the last wl observations; the forecast is its output vector *)
+Theorem C05_multioutput_data_flow : forall (M : Type) (fitm : list xrow -> list (list Z) -> M)
+  (predm : M -> xrow -> list Z) sc zs wl fh, wf_zs zs -> 1 <= wl -> wf_fh fh ->
+  let y := hd [] zs in
+  let nw := n_windows (zlen y) wl fh in
+  let X := train_X sc zs wl nw in
+  let xp := enc sc (last_obs zs wl) in
+  multioutput_run M fitm predm sc zs wl fh =
+    if nw <=? 0 then Err else
+    Ok (mkRun [FitM X (train_T y wl nw fh)] [(0, xp)] (predm (fitm X (train_T y wl nw fh)) xp)).
+Proof. exact multioutput_flow. Qed.
+Print Assumptions C05_multioutput_data_flow.
+
+(* the row handed to predict has the layout of a training row: it is the window starting at
+   n - wl under the same encoding *)
+Theorem C05_predict_row_has_training_layout : forall zs wl,
+  last_obs zs wl = window_at zs wl (zlen (hd [] zs) - wl).
+Proof. exact last_obs_is_window. Qed.
+Print Assumptions C05_predict_row_has_training_layout.
+
+(* recursive: one regressor fitted on all n - wl windows with the next observation as target;
+   call i+1 (i = 0 .. max fh - 1) is given the last wl values of the series extended by the
+   predictions made so far (exogenous columns extended by the rows of the X passed to predict);
+   its output is the prediction for step i+1 and is what is fed back; the forecast for step h is
+   the output of call h (also for gapped horizons) *)
+Theorem C05_recursive_data_flow : forall (M : Type) (fit1 : list xrow -> list Z -> M)
+  (pred1 : M -> xrow -> Z) sc zs wl fh xfut, wf_zs zs -> 1 <= wl -> wf_fh fh ->
+  let y := hd [] zs in
+  let n := zlen y in
+  let nw := n - wl in
+  let X := train_X sc zs wl nw in
+  let t := train_t y wl nw 1 in
+  let m := fit1 X t in
+  if nw <=? 0 then recursive_run M fit1 pred1 sc zs wl fh xfut = Err else
+  exists steps,
+    recursive_run M fit1 pred1 sc zs wl fh xfut =
+      Ok (mkRun [Fit1 X t] (map (fun s => (0, fst s)) steps)
+                (map (fun h => snd (nth (Z.to_nat (h - 1)) steps dflt)) fh)) /\
+    zlen steps = zlast fh /\
+    forall i, 0 <= i < zlast fh ->
+      nth (Z.to_nat i) steps dflt =
+        let ext := (y ++ map snd steps) :: map (fun p => fst p ++ snd p) (combine (tl zs) xfut) in
+        let x := enc sc (map (fun s => zslice s (n - wl + i) (n + i)) ext) in
+        (x, pred1 m x).
+Proof. exact recursive_flow. Qed.
+Print Assumptions C05_recursive_data_flow.
+
+(* "feed each earlier prediction back as the newest lag": the window of the extended series at
+   step i (0-based) is the last wl - i observations followed by the first i predictions, newest
+   last; from step wl on it is the wl most recent predictions *)
+Theorem C05_feedback_window_shape : forall (y P : list Z) wl i, 0 <= wl <= zlen y -> 0 <= i ->
+  zslice (y ++ P) (zlen y - wl + i) (zlen y + i) =
+    if i <=? wl then zslice y (zlen y - wl + i) (zlen y) ++ zslice P 0 i
+    else zslice P (i - wl) i.
+Proof. exact feedback_window_shape. Qed.
+Print Assumptions C05_feedback_window_shape.
+
+(* dirrec: regressor i is fitted on the lag window followed by the observed targets of the earlier
+   requested steps, target = observation fh_i steps after the window; at prediction time regressor
+   i is given the last window followed by the outputs of regressors 0 .. i-1 (newest last) and its
+   output is the forecast for step fh_i *)
+Theorem C05_dirrec_data_flow : forall (M : Type) (fit1 : list xrow -> list Z -> M)
+  (pred1 : M -> xrow -> Z) sc y wl fh, 1 <= wl -> wf_fh fh ->
+  let n := zlen y in
+  let nw := n_windows n wl fh in
+  let idx := zrange 0 (zlen fh) 1 in
+  let ms := map (fun i => fit1 (dirrec_X sc y wl nw fh i) (train_t y wl nw (znth fh i))) idx in
+  if nw <=? 0 then dirrec_run M fit1 pred1 sc [y] wl fh = Err else
+  exists steps,
+    dirrec_run M fit1 pred1 sc [y] wl fh =
+      Ok (mkRun (map (fun i => Fit1 (dirrec_X sc y wl nw fh i) (train_t y wl nw (znth fh i))) idx)
+                (combine idx (map fst steps)) (map snd steps)) /\
+    zlen steps = zlen fh /\
+    forall i m0, 0 <= i < zlen fh ->
+      nth (Z.to_nat i) steps dflt =
+        let x := enc sc [zslice y (n - wl) n ++ firstn (Z.to_nat i) (map snd steps)] in
+        (x, pred1 (nth (Z.to_nat i) ms m0) x).
+Proof. exact dirrec_flow. Qed.
+Print Assumptions C05_dirrec_data_flow.
+
+(* dirrec training rows hold nothing at or after their own target: window positions r + c and the
+   earlier targets (r + wl - 1) + h are strictly before (r + wl - 1) + fh_i *)
+Theorem C05_dirrec_row_no_future : forall fh wl r i h c, wf_fh fh -> 1 <= wl -> 0 <= i < zlen fh ->
+  0 <= c < wl -> In h (firstn (Z.to_nat i) fh) ->
+  r + c < (r + wl - 1) + znth fh i /\ (r + wl - 1) + h < (r + wl - 1) + znth fh i.
+Proof. exact dirrec_row_no_future. Qed.
+Print Assumptions C05_dirrec_row_no_future.
+
+(* dirrec refuses exogenous data (NotImplementedError in the source) *)
+Theorem C05_dirrec_rejects_exogenous : forall (M : Type) (fit1 : list xrow -> list Z -> M)
+  (pred1 : M -> xrow -> Z) sc y x xs wl fh, dirrec_run M fit1 pred1 sc (y :: x :: xs) wl fh = Err.
+Proof. exact dirrec_rejects_exog. Qed.
+Print Assumptions C05_dirrec_rejects_exogenous.
+
+(* scitype inference: a sktime BaseRegressor is a time-series regressor even if it also is a
+   sklearn RegressorMixin; otherwise a RegressorMixin is tabular; anything else is refused *)
+Theorem C05_infer_scitype : forall b1 b2,
+  infer_scitype b1 b2 = if b1 then Ok TimeSeries else if b2 then Ok Tabular else Err.
+Proof. exact infer_scitype_spec. Qed.
+Print Assumptions C05_infer_scitype.
+
+(* the hypotheses are satisfiable by a non-trivial instance (gapped horizon, exogenous column) *)
+Example C05_nonvacuous :
+  wf_zs ex_zs /\ wf_fh [1; 3] /\
+  swt ex_zs 2 (fh_indexer [1; 3]) =
+    Ok ([[13; 15]; [14; 16]; [15; 17]],
+        [[[11; 12]; [21; 22]]; [[12; 13]; [22; 23]]; [[13; 14]; [23; 24]]]) /\
+  enc Tabular (last_obs ex_zs 2) = RTab [16; 17; 26; 27].
+Proof. exact ex_nonvacuous. Qed.
